@@ -7,6 +7,7 @@
 import CSD.Driver.Util
 import CSD.Driver.Dict
 import CSD.Driver.Comp
+import CSD.Driver.Kinds
 
 open CSD CSD.Driver
 
@@ -14,7 +15,7 @@ def runCase (c : Case) : IO Unit := do
   let out ← IO.getStdout
   let emit : Nat → String → IO Unit := fun k s => out.putStrLn s!"{c.id} {k} {s}"
   match c.stream with
-  | "dict" => runDict c (specModel c) emit
+  | "dict" => runDict c (modelFor c) emit
   | "vbyte" => runVByte c emit
   | "logseq" => runLogSeq c emit
   | _ => emit 1 s!"ERR unknown-stream {c.stream}"
